@@ -184,12 +184,14 @@ def run_save(spec):
 # affine_transform_mesh
 # --------------------------------------------------------------------------
 def _matrix(spec):
-    unit = float(1 << spec.get("ub", 0))
-    rows = [list(map(float, spec["M"][r])) + [spec["tr"][r] / unit] for r in range(3)]
+    """M holds integers in unit 2^-mb, tr integers in unit 2^-(ub+mb)"""
+    munit = float(1 << spec.get("mb", 0))
+    unit = float(1 << (spec.get("ub", 0) + spec.get("mb", 0)))
+    rows = [[x / munit for x in spec["M"][r]] + [spec["tr"][r] / unit] for r in range(3)]
     if spec.get("shape", "3x4") == "4x4":
         rows.append([0.0, 0.0, 0.0, 1.0])
     mat = np.array(rows, dtype=np.float64)
-    if spec.get("mdtype") == "int" and spec.get("ub", 0) == 0:
+    if spec.get("mdtype") == "int" and spec.get("ub", 0) == 0 and spec.get("mb", 0) == 0:
         mat = mat.astype(np.int64)
     return mat
 
@@ -207,16 +209,18 @@ def ints_exact(a, unit):
 
 
 def run_affine(spec):
-    """spec: {"v": ints (unit 2^-ub), "ub", "t", "M": 3x3 ints, "tr": ints (same unit),
-    "vdtype", "tdtype", "shape": "3x4"|"4x4", "mdtype"}"""
+    """spec: {"v": ints (unit 2^-ub), "ub", "t", "M": 3x3 ints (unit 2^-mb), "mb",
+    "tr": ints (unit 2^-(ub+mb), the unit of the result), "vdtype", "tdtype",
+    "shape": "3x4"|"4x4", "mdtype"}"""
     m = _mesh_module()
     unit = float(1 << spec.get("ub", 0))
+    runit = float(1 << (spec.get("ub", 0) + spec.get("mb", 0)))
     v = (np.array(spec["v"], dtype=np.float64).reshape(-1, 3) / unit).astype(spec.get("vdtype", "float32"))
     t = _triangle_array(spec)
     try:
         with silenced():
             v2, t2 = m.affine_transform_mesh(v, t, _matrix(spec))
-        vi, exact = ints_exact(v2, unit)
+        vi, exact = ints_exact(v2, runit)
         t2 = np.asarray(t2)
         ti = t2.astype(np.int64).tolist() if t2.ndim == 2 and t2.shape[1] == 3 else [[-1, -1, -1]]
         res = {"st": "ok", "cls": "", "v": vi, "t": ti, "exact": exact}
@@ -265,14 +269,15 @@ def file_bytes(path):
 
 
 def read_info(root):
+    """("mesh" value or "", [[key, canonical JSON of value]] of the other keys)"""
     try:
         with open(os.path.join(root, "info")) as f:
             info = json.load(f)
-        rest = {k: v for k, v in info.items() if k != "mesh"}
+        rest = [[k, json.dumps(info[k], sort_keys=True)] for k in sorted(info) if k != "mesh"]
         m = info.get("mesh", "")
-        return (m if isinstance(m, str) else "?"), json.dumps(rest, sort_keys=True)
+        return (m if isinstance(m, str) else "?"), rest
     except Exception as e:
-        return "?", "unreadable:" + exc_name(e)
+        return "?", [["unreadable", exc_name(e)]]
 
 
 def run_cli(module, argv, via):
@@ -300,13 +305,13 @@ def run_cli(module, argv, via):
 
 
 def fmt_unit(q, ub):
-    """q / 2^ub as an exact decimal string"""
-    return repr(q / float(1 << ub)) if ub else str(int(q))
+    """q / 2^ub as an exact decimal string (dyadic numbers print exactly)"""
+    return ("%.10f" % (q / float(1 << ub))).rstrip("0").rstrip(".") if ub else str(int(q))
 
 
 def run_tool(workdir, spec, serial):
     """mesh-to-precomputed on a GIfTI file written with nibabel.
-    spec: {"v", "ub", "t", "xf": None | {"M", "tr", "n": 12|16}, "info_mesh", "meshdir_arg",
+    spec: {"v", "ub", "t", "xf": None | {"M", "mb", "tr", "n": 12|16}, "info_mesh", "meshdir_arg",
     "name_arg", "stem", "gzip", "kind", "expect", "via"}"""
     import nibabel
     from nibabel.gifti import GiftiDataArray, GiftiImage
@@ -332,10 +337,11 @@ def run_tool(workdir, spec, serial):
     if not spec.get("gzip", True):
         argv.append("--no-gzip")
     xf = spec.get("xf")
+    mb = xf.get("mb", 0) if xf else 0
     if xf:
         cells = []
         for r in range(3):
-            cells += [str(int(x)) for x in xf["M"][r]] + [fmt_unit(xf["tr"][r], ub)]
+            cells += [fmt_unit(x, mb) for x in xf["M"][r]] + [fmt_unit(xf["tr"][r], ub + mb)]
         if xf.get("n", 12) == 16:
             cells += ["0", "0", "0", "1"]
         argv.append("--coord-transform=" + ",".join(cells))
@@ -352,7 +358,7 @@ def run_tool(workdir, spec, serial):
         raw = file_bytes(os.path.join(root, new[0]))
         if raw is not None and len(raw) < 60000:
             b = enc_bytes(raw)
-    return {"mode": "tool", "v": spec["v"], "ub": ub, "t": spec["t"], "hasxf": bool(xf),
+    return {"mode": "tool", "v": spec["v"], "ub": ub + mb, "t": spec["t"], "hasxf": bool(xf),
             "M": xf["M"] if xf else [], "tr": xf["tr"] if xf else [],
             "rc": rc, "exc": exc, "expect": spec.get("expect", "ok"),
             "args": {"meshdir": spec["meshdir_arg"], "name": spec["name_arg"] or spec["stem"]},
@@ -394,13 +400,12 @@ def run_links(workdir, spec, serial):
     after = snapshot(root)
     aft = []
     for p in sorted(after):
-        e = {"path": rel(p), "hash": after[p], "st": "other", "keys": [], "frags": []}
+        e = {"path": rel(p), "hash": after[p], "st": "other", "frags": []}
         if p not in before:
             raw = file_bytes(os.path.join(root, p))
             try:
                 obj = json.loads(raw.decode("utf-8"))
                 if isinstance(obj, dict):
-                    e["keys"] = sorted(map(str, obj))
                     fr = obj.get("fragments")
                     if isinstance(fr, list) and all(isinstance(x, str) for x in fr):
                         e["st"] = "json"
